@@ -482,6 +482,11 @@ pub fn c05(ctx: &Ctx, rep: &mut Report) {
         let ops = gen_ops(&mut rng, r.recs.len(), r.has_err(), &w, if ctx.miri { 10 } else if ctx.tier_thorough { 70 } else { 40 });
         let mut case = build_case(fmt, bytes, cfg, vec![], ops);
         rep.evaluations += 1;
+        let absolute_only = (idx / 2) % 4 == 1;
+        crate::src::ABSOLUTE_SEEKS_ONLY.with(|a| a.set(absolute_only));
+        if absolute_only {
+            rep.count("histories_over_a_source_with_absolute_seeks_only");
+        }
         let mut out = run_history(
             &case,
             RunOpts {
@@ -519,6 +524,7 @@ pub fn c05(ctx: &Ctx, rep: &mut Report) {
             case.faults.clear();
             out.stats.positions_checked_after_error = 0;
         }
+        crate::src::ABSOLUTE_SEEKS_ONLY.with(|a| a.set(false));
         // after a seek the stream must be restored: order deviations in a history with seeks belong here too
         let has_seek = case.ops.iter().any(|o| matches!(o, Op::Seek(_)));
         let tags: &[&str] = if has_seek {
@@ -864,7 +870,10 @@ pub fn c09(ctx: &Ctx, rep: &mut Report) {
         // long inputs whose records all fit: growth must never happen
         let long = idx % 97 == 5 && !ctx.miri;
         // the same record extents (cap-2 .. cap+2, 2cap+-1) around realistic capacities, powers of two included
-        let big_cap = !long && !ctx.miri && rng.chance(1, 150);
+        // small records, exact-count batches that need more than the policy permits, then single reads:
+        // what a failed batch leaves behind must not make fitting records fail
+        let over_limit = !long && (idx % 97 == 11 || idx % 97 == 12);
+        let big_cap = !long && !over_limit && !ctx.miri && rng.chance(1, 150);
         if big_cap {
             cap = *rng.pick(&[4096usize, 65_535, 65_536, 65_537, 131_072, 1 << 18]);
             rep.count("histories_with_capacity_4k_to_256k");
@@ -897,6 +906,17 @@ pub fn c09(ctx: &Ctx, rep: &mut Report) {
                 }
             }
             b
+        } else if over_limit {
+            let opts = GenOpts {
+                max_recs: 30,
+                max_line: (cap / 5).max(2),
+                tag: ctx.shard,
+                giant: 0,
+                ..GenOpts::default()
+            };
+            let mut o = gen::gen_render_opts(&mut rng, fmt);
+            o.leading_blanks = 0;
+            gen::render(&gen::gen_abs(&mut rng, fmt, &opts), &o)
         } else {
             c09_input(&mut rng, fmt, cap, ctx.shard, if ctx.miri { 4 } else if big_cap { 6 } else { 30 })
         };
@@ -908,6 +928,9 @@ pub fn c09(ctx: &Ctx, rep: &mut Report) {
         }
         let policy = if long {
             PolSpec::Std
+        } else if over_limit {
+            rep.count("histories_with_exact_batches_over_the_limit");
+            rng.pick(&[PolSpec::DoubleUntilLimited(8, cap), PolSpec::RefuseAlways, PolSpec::DoubleUntilLimited(8, cap + cap / 2)]).clone()
         } else if !ctx.miri && rng.chance(1, 120) {
             // one growth step of more than 16 MiB / 2^24 (+1, +2, ...): the size the policy returns
             // must be adopted whatever its distance from the current capacity
@@ -939,7 +962,7 @@ pub fn c09(ctx: &Ctx, rep: &mut Report) {
             interrupts: Interrupts::None,
         };
         // (idx / 2: the format alternates with idx, both formats get every mode)
-        let exact_mode = !long && (idx / 2) % 4 == 3;
+        let exact_mode = over_limit || (!long && (idx / 2) % 4 == 3);
         let ops = if long {
             // read everything with next() or with sets
             let n = r.recs.len() + 2;
